@@ -157,7 +157,7 @@ def jobs(tier):
     else:
         combos = []
     if tier != "quick":
-        combos = [(f, b, 2, 2) for f in ("oid", "path") for b in (1, 2)] + [("mixed", 2, 2, 2)] + \
+        combos = [(f, b, 2, 2) for f in ("oid", "path") for b in (2,)] + [(f, 1, 2, 1) for f in ("oid", "path")] + [("mixed", 2, 2, 1)] + \
                  [(f, b, 2, 1) for f in ("oid", "path", "mixed") for b in (0,)] + \
                  [(f, b, 2, 1) for f in ("oid-ci", "oid-filt") for b in (1, 2)] + \
                  [(f, b, 3, "round") for f in ("oid", "path") for b in (2,)]
@@ -188,10 +188,10 @@ def jobs(tier):
             for flip in (False, True):
                 out.append({"harness": "hist", "params": {"flavour": f, "story": name, "flip": flip}, "label": "%s/story=%s%s" % (f, name, "/flipped" if flip else "")})
     # finer interleaving: the second operation happens inside an engine step (before its k-th provider call)
-    for f in (("oid",) if tier == "quick" else ("oid", "path", "mixed")):
+    for f in (("oid",) if tier == "quick" else ("oid", "path")):
         for side in (0, 1):
             for op in OPS:
-                out.append({"harness": "hist", "params": {"flavour": f, "base": 2, "nops": 2, "slots": 1, "slotsper": [1, 0] if tier == "quick" else [1, 1], "midstep": 3 if tier == "quick" else 5, "first": [side, op]},
+                out.append({"harness": "hist", "params": {"flavour": f, "base": 2, "nops": 2, "slots": 1, "slotsper": [1, 0], "midstep": 3 if tier == "quick" else 5, "first": [side, op]},
                             "label": "%s/base2/2ops/second-inside-a-step/first=%d:%s" % (f, side, op)})
     # a folder taking a deleted file's name; one copy becoming unreadable while the other side has an unsynced edit
     for f in (("oid", "path") if tier == "quick" else ("oid", "path", "mixed")):
